@@ -83,9 +83,22 @@ func engineNL(w *World, tier string) *EngineResult {
 					r.violated("NL", fnKey(fn), construct, "the length of a text is returned as a boolean on its own: behaviour depends on how long a name is", pos)
 					continue
 				}
-				// (a) neighbouring conjunct tests a decoration of the same text
-				if nlDecorationNeighbour(c, bo, key) {
-					r.holds("NL", fnKey(fn), construct, "conjunct next to a decoration test (index/slice of the same text compared with a constant)", pos)
+				// (a) neighbouring conjunct tests a decoration of the same text: the length test may
+				// ask for the decoration plus one character of name, not more
+				if d := nlDecorationLen(c, bo, key); d > 0 {
+					fs := map[string]int{}
+					c.lenFacts(bo, true, nil, fs, 0)
+					e := fs[key]
+					fs = map[string]int{}
+					c.lenFacts(bo, false, nil, fs, 0)
+					if fs[key] > e {
+						e = fs[key]
+					}
+					if e > d+1 {
+						r.violated("NL", fnKey(fn), construct, fmt.Sprintf("the length test next to a decoration test of %d character(s) establishes len ≥ %d: a decorated name needs the decoration and one more character (len ≥ %d); the extra strength classifies short names differently — renaming to a one-character name changes the analysis", d, e, d+1), pos)
+						continue
+					}
+					r.holds("NL", fnKey(fn), construct, fmt.Sprintf("conjunct next to a decoration test (index/slice of the same text compared with a constant of %d character(s)); it asks for no more than the decoration and one character of name", d), pos)
 					continue
 				}
 				// (b) exact bounds guard
@@ -194,46 +207,86 @@ func nlName(c *ixCtx, v ssa.Value) string {
 // nlDecorationNeighbour: the comparison is one conjunct of an && chain whose adjacent
 // conjunct compares an index or slice of the same text with a constant.
 func nlDecorationNeighbour(c *ixCtx, bo *ssa.BinOp, key string) bool {
-	isDecorationTest := func(b *ssa.BasicBlock) bool {
+	return nlDecorationLen(c, bo, key) > 0
+}
+
+// nlDecorationLen: length of the decoration tested by the neighbouring conjunct (0: none).
+func nlDecorationLen(c *ixCtx, bo *ssa.BinOp, key string) int {
+	isDecorationTest := func(b *ssa.BasicBlock) int {
 		for _, ins := range b.Instrs {
 			cmp, ok := ins.(*ssa.BinOp)
 			if !ok || (cmp.Op != token.EQL && cmp.Op != token.NEQ) {
 				continue
 			}
 			for _, pr := range [][2]ssa.Value{{cmp.X, cmp.Y}, {cmp.Y, cmp.X}} {
-				if _, isConst := pr[1].(*ssa.Const); !isConst {
+				kc, isConst := pr[1].(*ssa.Const)
+				if !isConst {
 					continue
+				}
+				d := 1
+				if cv := constVal(kc); cv.k == kStr {
+					d = len(cv.s)
+					if d == 0 {
+						d = 1
+					}
 				}
 				switch y := pr[0].(type) {
 				case *ssa.Index:
 					if c.exprKey(y.X, nil, 0) == key {
-						return true
+						if ic, ok := y.Index.(*ssa.Const); ok {
+							if iv := constVal(ic); iv.k == kInt && iv.i >= 0 {
+								return int(iv.i) + 1
+							}
+						}
+						return d
 					}
 				case *ssa.Slice:
 					if c.exprKey(y.X, nil, 0) == key {
-						return true
+						return d
 					}
 				case *ssa.Lookup:
 					if c.exprKey(y.X, nil, 0) == key {
-						return true
+						return d
 					}
 				}
 			}
 		}
-		return false
+		return 0
 	}
 	blk := bo.Block()
 	// successor on the true edge (len test first), or the unique predecessor (len test second)
 	if iff, ok := blk.Instrs[len(blk.Instrs)-1].(*ssa.If); ok && iff.Cond == ssa.Value(bo) {
 		for _, s := range blk.Succs {
-			if len(s.Preds) == 1 && isDecorationTest(s) {
-				return true
+			if len(s.Preds) == 1 {
+				if d := isDecorationTest(s); d > 0 {
+					// the decoration may be tested character by character along the && chain
+					cur := s
+					for hops := 0; hops < 6; hops++ {
+						var nxt *ssa.BasicBlock
+						for _, s2 := range cur.Succs {
+							if len(s2.Preds) == 1 {
+								if d2 := isDecorationTest(s2); d2 > 0 {
+									if d2 > d {
+										d = d2
+									}
+									nxt = s2
+								}
+							}
+						}
+						if nxt == nil {
+							break
+						}
+						cur = nxt
+					}
+					return d
+				}
 			}
 		}
 	}
-	if len(blk.Preds) == 1 && isDecorationTest(blk.Preds[0]) {
-		return true
+	if len(blk.Preds) == 1 {
+		if d := isDecorationTest(blk.Preds[0]); d > 0 {
+			return d
+		}
 	}
-	// same block (no short-circuit needed)
-	return isDecorationTest(blk) && false
+	return 0
 }
